@@ -7,6 +7,7 @@ specification side `Compress.XFlate.ReaderSpec`, lemmas in
 -/
 import Compress.XFlate.ReaderSpec
 import Compress.Proofs.XFlateReader
+import Compress.Regress.C07
 
 namespace Compress.Props.C07
 open Compress.XFlate
@@ -57,5 +58,36 @@ theorem C07_eof_sticky (L : Layout) (s : RState) (h : s.err = some .eof) (n : Na
 theorem C07_readseeker (L : Layout) (plain : List UInt8) (wf : WellFormed L plain) (ops : List ROp) :
     TraceOK plain 0 ops (runOps .fixed L (opened .fixed L) ops) :=
   Compress.Proofs.XFlateReader.readseeker L plain wf ops
+
+/-- Non-vacuity: a concrete layout (one ten-byte chunk and the footer) satisfies
+    every hypothesis of `C07_readseeker`. -/
+theorem C07_wellformed_witness : WellFormed Compress.Regress.C07.L Compress.Regress.C07.plain := by
+  have cases3 : ∀ (P : Nat → Prop), P 0 → P 1 → P 2 → ∀ j, j ≤ 2 → P j := by
+    intro P h0 h1 h2 j hj
+    match j, hj with
+    | 0, _ => exact h0
+    | 1, _ => exact h1
+    | 2, _ => exact h2
+  refine ⟨by decide, by decide, by decide, by decide, by decide, ?_, ?_, ?_, ?_⟩
+  · exact cases3 _ (by decide) (by decide) (by decide)
+  · exact cases3 _ (by decide) (by decide) (by decide)
+  · exact cases3 _ (by decide) (by decide) (by decide)
+  · exact cases3 _ (by decide) (by decide) (by decide)
+
+example : TraceOK Compress.Regress.C07.plain 0 [.seek 2 0, .seek 5 0, .read 1 []]
+    (runOps .fixed Compress.Regress.C07.L (opened .fixed Compress.Regress.C07.L) [.seek 2 0, .seek 5 0, .read 1 []]) :=
+  C07_readseeker _ _ C07_wellformed_witness _
+
+/-- The property is false of the code as it was at the pinned commit (D1): the
+    model of the original `Seek` produces a trace no ReadSeeker can produce. -/
+theorem C07_orig_violates_D1 :
+    ¬ TraceOK Compress.Regress.C07.plain 0 [.seek 2 0, .seek 5 0, .read 1 []]
+        (runOps .orig Compress.Regress.C07.L (opened .orig Compress.Regress.C07.L) [.seek 2 0, .seek 5 0, .read 1 []]) :=
+  Compress.Regress.C07.D1_orig_violates
+
+/-- … and (D2) its `Read` with an empty buffer never returns, whatever the fuel. -/
+theorem C07_orig_violates_D2 (fuel : Nat) :
+    read .orig Compress.Regress.C07.L (opened .orig Compress.Regress.C07.L) 0 [] fuel = none :=
+  Compress.Regress.C07.D2_orig_hangs fuel
 
 end Compress.Props.C07
